@@ -31,11 +31,8 @@ func RangeCounts() (uint64, uint64) { return rangeCount.Load(), rangeMulti.Load(
 func ResetRangeCounts()             { rangeCount.Store(0); rangeMulti.Store(0) }
 
 func orderStream() *Rand {
-	if s := active.Load(); s != nil {
-		raceDisable()
-		t := curTask.Load()
-		raceEnable()
-		if t != nil {
+	if active.Load() != nil {
+		if _, t := current(); t != nil {
 			return t.order
 		}
 	}
